@@ -331,16 +331,18 @@ type recEntry struct {
 }
 
 type runProbe struct {
-	mu         sync.Mutex
-	entries    map[recKey]*recEntry
-	calls      map[int]*int64   // user-function invocations per node
-	incrs      map[int]*int64   // metrics increments performed per counter index
-	shardCalls map[[2]int]int64 // (node, shard) -> invocations, for functions that know their shard
-	activeSrc  map[[2]int]int   // (node, shard) -> source attempts currently between first call and EOF
-	overlaps   int              // times a source attempt started while another attempt of the same shard was active
-	attempts   map[[2]int]int   // (node, shard) -> source attempts started
-	active     int64            // user functions currently executing (concurrency gauge)
-	maxAct     int64
+	mu          sync.Mutex
+	entries     map[recKey]*recEntry
+	calls       map[int]*int64   // user-function invocations per node
+	incrs       map[int]*int64   // metrics increments performed per counter index
+	shardCalls  map[[2]int]int64 // (node, shard) -> invocations, for functions that know their shard
+	activeSrc   map[[2]int]int   // (node, shard) -> source attempts currently between first call and EOF
+	overlaps    int              // times a source attempt started while another attempt of the same shard was active
+	attempts    map[[2]int]int   // (node, shard) -> source attempts started
+	activeTotal int              // source attempts (tasks with a source) currently running, all shards
+	exclActive  int              // of which under an Exclusive pragma
+	maxAct      int64            // maximum of activeTotal
+	exclViol    int64            // times another task was running while an exclusive one ran
 }
 
 var probes sync.Map // run id -> *runProbe
@@ -528,11 +530,28 @@ func BuildSlice(sp Spec, args []bigslice.Slice) bigslice.Slice {
 					if pr.activeSrc[key] > 1 {
 						pr.overlaps++
 					}
+					pr.activeTotal++
+					if n.Pragma == "exclusive" {
+						pr.exclActive++
+					}
+					if int64(pr.activeTotal) > pr.maxAct {
+						atomic.StoreInt64(&pr.maxAct, int64(pr.activeTotal))
+					}
+				}
+				if pr.exclActive > 0 && pr.activeTotal > 1 {
+					atomic.AddInt64(&pr.exclViol, 1)
 				}
 				pr.mu.Unlock()
+				if spec.Delay > 0 {
+					time.Sleep(time.Duration(spec.Delay) * time.Microsecond)
+				}
 				endAttempt := func() {
 					pr.mu.Lock()
 					pr.activeSrc[key]--
+					pr.activeTotal--
+					if n.Pragma == "exclusive" {
+						pr.exclActive--
+					}
 					pr.mu.Unlock()
 				}
 				if err := userCall(nil, spec, ni); err != nil {
